@@ -57,6 +57,9 @@ class Owner:
     def run(self, state):
         return self.kernel_pre(state.kernel_post_args)   # G2b
 
+    def build(self, train_update, eval_update):
+        return dict(train_update=train_update, eval_update=train_update)   # G17
+
     @property
     def mode(self):
         return self._mode
@@ -93,9 +96,10 @@ def _program_controls() -> int:
         G.g14_exact_compare(ctx, funcs)
         G.g15_leaked_loop_variable(ctx, funcs)
         G.g16_symmetric_arms(ctx, funcs)
+        G.g17_keyword_namesake(ctx, funcs)
         fired = {o.rule for o in ctx.findings()}
         bad = 0
-        for r in ("G2b", "G12", "G13", "G14", "G15", "G16"):
+        for r in ("G2b", "G12", "G13", "G14", "G15", "G16", "G17"):
             if r not in fired:
                 print(f"CONTROL-FAIL {r} did not fire on the known-bad control package")
                 bad += 1
